@@ -17,7 +17,8 @@ META = {
              "from dense arrays (1-D..3-D). Non-trivial: >=2 entries, >=1 non-empty row-id array, arity >=2 or a word "
              "size >1; distinct by content hash"),
     "require": {t: ["class:entries=0", "class:arity=1", "class:arity=4", "class:coord_word=8", "class:common_word=8",
-                    "class:common_wider_than_coords", "class:empty_rowids", "class:index_roundtrip"]
+                    "class:common_wider_than_coords", "class:empty_rowids", "class:index_roundtrip",
+                    "class:dense_run_of_boundary_length", "class:arrays_tile_one_buffer"]
                 for t in ("quick", "thorough")},
     "assumptions": ["with no entries the coordinate arity cannot be stored (dimension byte 0); keys are empty anyway"],
 }
@@ -40,6 +41,14 @@ def cases(ctx):
             a = gen.draw_values(rng, int(numpy.prod(shape)), vals, gen.pick(rng, gen.DIST_CLASSES)).reshape(shape)
             common = int(gen.pick(rng, vals + [max(vals) + 1 if max(vals) < 2 ** 63 - 1 else 0]))
             yield {"kind": "index", "dense": a, "common": common}
+        elif i % 29 == 3:
+            c = indx.run_case(rng)
+            c["kind"] = "entries"
+            yield c
+        elif i % 11 == 6:
+            c = indx.tiled_case(rng)
+            c["kind"] = "entries"
+            yield c
         else:
             c = indx.indx_case(rng)
             c["kind"] = "entries"
@@ -61,6 +70,10 @@ def judge(ctx, case):
         ctx.count("class:common_wider_than_coords")
     if any(len(v) == 0 for v in ent.values()):
         ctx.count("class:empty_rowids")
+    if case.get("run_length"):
+        ctx.count("class:dense_run_of_boundary_length")
+    if case.get("tiled"):
+        ctx.count("class:arrays_tile_one_buffer")
     feat = "arity=%d,cw=%d,kw=%d,n=%s" % (case["arity"], indx.word_class(maxc), indx.word_class(common),
                                           "0" if n == 0 else ("1" if n == 1 else "many"))
     nt = n >= 2 and any(len(v) for v in ent.values()) and (case["arity"] >= 2 or max(indx.word_class(maxc), indx.word_class(common)) > 1)
